@@ -2,10 +2,12 @@ package props
 
 import (
 	"bytes"
+	"context"
 	"fmt"
 	"strings"
 	"testing"
 
+	"github.com/bufbuild/protocompile/experimental/incremental"
 	"github.com/bufbuild/protocompile/experimental/incremental/queries"
 	"github.com/bufbuild/protocompile/experimental/source"
 	"pgregory.net/rapid"
@@ -19,6 +21,12 @@ import (
 type c35Edit struct {
 	File    string
 	Version int // index into Versions; -1 = delete the file
+	// what is asked for after the edit: the files to compile, in this order (nil = all, in workspace order), and an
+	// optional query of another kind that is run on the long-lived executor first (it memoizes File/AST results that
+	// the compilation then finds)
+	Roots    []string
+	Warm     string // "", "ast", "file"
+	WarmPath string
 }
 
 type c35Case struct {
@@ -63,6 +71,7 @@ func c35Check(c c35Case, r *ev.Rec) error {
 		return fmt.Errorf("panic escaped the experimental compiler on the initial workspace: %v", first.Escaped)
 	}
 	broke, repaired, deleted := false, false, false
+	subset, warmed := false, false
 	for step, e := range c.Edits {
 		var keys []any
 		keys = append(keys, queries.File{Opener: long.openers, Path: e.File, ReportError: true}, queries.File{Opener: long.openers, Path: e.File, ReportError: false})
@@ -86,14 +95,27 @@ func c35Check(c c35Case, r *ev.Rec) error {
 		default:
 			broke = true
 		}
-		inc := long.compile(c.Names)
-		fresh := newExpSession(cur, c.Par).compile(c.Names)
-		incDiag, incProtos := c35Outcome(inc, c.Names)
-		freshDiag, freshProtos := c35Outcome(fresh, c.Names)
+		roots := c.Names
+		if len(e.Roots) > 0 {
+			roots = e.Roots
+			subset = true
+		}
+		switch e.Warm {
+		case "ast":
+			warmed = true
+			_, _, _ = incremental.Run(context.Background(), long.exec, queries.AST{Opener: long.openers, Path: e.WarmPath})
+		case "file":
+			warmed = true
+			_, _, _ = incremental.Run(context.Background(), long.exec, queries.File{Opener: long.openers, Path: e.WarmPath, ReportError: false})
+		}
+		inc := long.compile(roots)
+		fresh := newExpSession(cur, c.Par).compile(roots)
+		incDiag, incProtos := c35Outcome(inc, roots)
+		freshDiag, freshProtos := c35Outcome(fresh, roots)
 		where := func() string {
 			var hist []string
 			for i := 0; i <= step; i++ {
-				hist = append(hist, fmt.Sprintf("%s->v%d", c.Edits[i].File, c.Edits[i].Version))
+				hist = append(hist, fmt.Sprintf("%s->v%d (compile %v, warm %s %s)", c.Edits[i].File, c.Edits[i].Version, c.Edits[i].Roots, c.Edits[i].Warm, c.Edits[i].WarmPath))
 			}
 			return fmt.Sprintf("after edit %d of history [%s] (defects per version: %v)\ncurrent files:\n%s", step, strings.Join(hist, ", "), c.Defects, showFiles(cur))
 		}
@@ -120,6 +142,12 @@ func c35Check(c c35Case, r *ev.Rec) error {
 	if deleted {
 		labels = append(labels, "file-deleted")
 	}
+	if subset {
+		labels = append(labels, "compiles-a-subset")
+	}
+	if warmed {
+		labels = append(labels, "other-query-kind-first")
+	}
 	r.Case(ev.JSONFP(c), nt, labels...)
 	r.LabelN("edits", len(c.Edits))
 	if nt && r.WantSample() {
@@ -137,7 +165,7 @@ func indent(s string) string {
 
 func TestC35_EditHistories(t *testing.T) {
 	ev.Run(t, ev.Spec[c35Case]{ID: "C35", Name: "EditHistories", Quick: 150, Thorough: 5000,
-		Rule: "generated valid workspaces of 2-5 files with 1-3 cumulative defective versions (injected by the mutation operators: changed or unknown types, broken imports, duplicate names, option errors ...; import cycles excluded, see the C36 finding), and a history of 3-8 edits, each setting one file to one of its versions (breaking or repairing it) or deleting it (and later restoring it); after every edit both queries.File keys of the touched path are evicted (EvictWithCleanup, the edit applied inside the cleanup) and all files are compiled (queries.IR) on the long-lived executor+session and on a brand-new executor+session over the same files; oracle: identical rendered diagnostics (order included), identical fatal errors and identical descriptor bytes per file; non-trivial = >=3 edits with one that breaks and one that repairs; distinct by case",
+		Rule: "generated valid workspaces of 2-5 files with 1-3 cumulative defective versions (injected by the mutation operators: changed or unknown types, broken imports, duplicate names, option errors ...; import cycles excluded, see the C36 finding), and a history of 3-8 edits, each setting one file to one of its versions (breaking or repairing it) or deleting it (and later restoring it); after every edit both queries.File keys of the touched path are evicted (EvictWithCleanup, the edit applied inside the cleanup) and all files - or, in 35% of the steps, a generated subset in generated order - are compiled (queries.IR) on the long-lived executor+session and on a brand-new executor+session over the same files; in 25% of the steps a queries.AST or queries.File for some path is run on the long-lived executor first, so that the compilation meets results memoized by another kind of query; oracle: identical rendered diagnostics (order included), identical fatal errors and identical descriptor bytes per file; non-trivial = >=3 edits with one that breaks and one that repairs; distinct by case",
 		Gen: func(t *rapid.T) c35Case {
 			ws := gen.GenWorkspace(t, gen.Config{MinFiles: 2, MaxFiles: 5, ImportPct: 60})
 			c := c35Case{Names: ws.Names(), Par: gen.Pick(t, []int{1, 2, 4}, "par")}
@@ -167,6 +195,16 @@ func TestC35_EditHistories(t *testing.T) {
 					c.Edits = append(c.Edits, c35Edit{File: f, Version: -1})
 				default:
 					c.Edits = append(c.Edits, c35Edit{File: f, Version: gen.Uniform(t, len(c.Versions), "ver")})
+				}
+				e := &c.Edits[len(c.Edits)-1]
+				if gen.Pct(t, 35, "subset") {
+					// a generated non-empty subset of the files, in generated order
+					perm := rapid.Permutation(c.Names).Draw(t, "rootorder")
+					e.Roots = perm[:1+gen.Uniform(t, len(perm), "nroots")]
+				}
+				if gen.Pct(t, 25, "warm") {
+					e.Warm = gen.Pick(t, []string{"ast", "file"}, "warmkind")
+					e.WarmPath = gen.Pick(t, c.Names, "warmpath")
 				}
 			}
 			return c
